@@ -101,9 +101,18 @@ func (l *baseLeaf) URLPath(vals map[string]string, withOptional bool) string {
 				continue
 			}
 
-			buf.WriteString("{")
-			buf.WriteString(e.BindParameters.Parameters[0].Ident)
-			buf.WriteString("}")
+			// Every parameter of a regex list is a bind, e.g. "{year: /[0-9]+/, month: /[0-9]+/}";
+			// otherwise only the first is and the rest are annotations, e.g. "{name: **,
+			// capture: 2}".
+			parameters := e.BindParameters.Parameters
+			if parameters[0].Value.Regex == nil {
+				parameters = parameters[:1]
+			}
+			for _, p := range parameters {
+				buf.WriteString("{")
+				buf.WriteString(p.Ident)
+				buf.WriteString("}")
+			}
 		}
 	}
 
